@@ -97,6 +97,8 @@ func checkSDTVal(c *Ctx, p *Prog, rule string) {
 		"$0": {"$0"}, "$12": {"$12"}, "$T3": {"$T3"}, "$T10 $2": {"$T10", "$2"}, "$Context": {"$Context"},
 		"$C": nil, "$T": nil, "$x": nil, "$": nil, "x$1y": {"$1"}, "$$1": {"$1"}, "$Tx": nil, "$Contex": nil, "ast.New($0, $T1, $Context)": {"$0", "$T1", "$Context"},
 		"$1a": {"$1"}, "$T1a": {"$T1"},
+		// every reference is substituted wherever it stands: the scanner of actions knows no Go syntax
+		`f('"', $2, "x")`: {"$2"}, "g(`a`, $T0, `b`)": {"$T0"}, `h("$1")`: {"$1"}, "k('`', $3, '`')": {"$3"}, `m("a\"", $4)`: {"$4"},
 	}
 	nbad := 0
 	firstBad := ""
